@@ -197,8 +197,9 @@ def _cases_task(task):
         if rng.random() < 0.2:
             low = {p: {op: (rng.randint(0, 6), rng.randint(0, 6)) for op in ops} for p, ops in table.items() if rng.random() < 0.4}
         kw = {}
-        if rng.random() < 0.15:
-            kw = rng.choice([{"minor_add": 0.5}, {"minor_miss": 1.0}, {"minor_add": 2.0}, {"threshold": 0.3}])
+        if rng.random() < 0.25:
+            kw = rng.choice([{"minor_add": 0.5}, {"minor_miss": 1.0}, {"minor_add": 2.0}, {"threshold": 0.3}, {"minor_phase": 1.0},
+                             {"minor_phase": 0.1}, {"min_coverage": 4.0}, {"threshold": 0.7}])
         prof = _profile(**kw)
         indels = None
         if rng.random() < 0.25:
